@@ -315,6 +315,9 @@ class RandInfoBuilder(ModelVisitor,RandIF):
                     for c in self._active_randset.soft_constraints():
                         ex_randset.add_constraint(c)
 
+                    for f,dist_l in self._active_randset.dist_field_m.items():
+                        ex_randset.dist_field_m.setdefault(f, []).extend(dist_l)
+
                     # Remove the previous randset
                     idx = self._randset_m[self._active_randset]
                     self._randset_m.pop(self._active_randset)
@@ -398,6 +401,9 @@ class RandInfoBuilder(ModelVisitor,RandIF):
                     
                 for c in self._active_randset.soft_constraints():
                     ex_randset.add_constraint(c)
+
+                for f,dist_l in self._active_randset.dist_field_m.items():
+                    ex_randset.dist_field_m.setdefault(f, []).extend(dist_l)
 
                 # Remove the previous randset
                 idx = self._randset_m[self._active_randset]
